@@ -15,6 +15,7 @@ type ExchangeJSightSchema struct {
 	*jschema.JSchema
 
 	onceCompile            sync.Once
+	compileErr             error
 	catalogUserTypes       *UserTypes
 	disableExchangeExample bool
 
@@ -76,15 +77,18 @@ func (e *ExchangeJSightSchema) Compile() (err error) {
 	e.onceCompile.Do(func() {
 		err = e.buildContent()
 		if err != nil {
+			e.compileErr = err
 			return
 		}
 
 		err = e.processAllOf(e.exchangeUsedUserTypes)
 		if err != nil {
+			e.compileErr = err
 			return
 		}
 	})
-	return err
+	// The error of the first (and only) compilation is returned by every call.
+	return e.compileErr
 }
 
 func (e *ExchangeJSightSchema) buildContent() error {
